@@ -1,6 +1,6 @@
 #!/bin/sh
 # runs every check's thorough tier one after the other (for background validation)
-for c in C16 C15 C18 C13 C09 C14 C20 C17 C04 C06 C03 C05 C12 C11 C10 C08 C19 C07 C02 C01; do
+for c in ${SWEEP:-C01 C02 C05 C03 C06 C04 C20 C18 C13 C19 C12 C11 C08 C07 C10 C09 C14 C15 C16 C17}; do
   echo "=== $c $(date +%H:%M:%S)"
   ./check $c thorough 2>&1 | grep -E "VIOLATION|violation detail|KNOWN-FINDING|thorough:|ENGINE-ERROR|BUILD-FAILED|family|enum|sch " | cut -c1-300
 done
